@@ -109,7 +109,7 @@ func runCase(rep *vevid.Report, f *vevid.Flags, c *Case) {
 	}()
 	w, err := newWorld(filepath.Join(f.Scratch, "eng"), c)
 	if err != nil {
-		vevid.Fatal("open engine: %v", err)
+		vevid.OpFailed("open engine: %v", err)
 	}
 	defer w.close()
 	nontrivial := false
@@ -170,7 +170,7 @@ func runCase(rep *vevid.Report, f *vevid.Flags, c *Case) {
 		switch st {
 		case 'F', 'o':
 			if err := w.register(obs); err != nil {
-				vevid.Fatal("%s: after %s: %v", c, done, err)
+				vevid.OpFailed("%s: after %s: %v", c, done, err)
 			}
 		case 'c':
 			w.markKnown(obs)
